@@ -288,7 +288,9 @@ func performSeek(ctx context.Context, ps Store, memRes []KeyValueExists, rng See
 						haveMem = false
 					}
 				} else {
-					if !bytes.Equal(kvMem.Key, kvPs.Key) {
+					// kvMem is stale (and its key may already be trimmed) once
+					// memRes is exhausted, it must not hide anything then.
+					if !haveMem || !bytes.Equal(kvMem.Key, kvPs.Key) {
 						if cutPrefix {
 							kvPs.Key = kvPs.Key[lPrefix:]
 						}
